@@ -63,6 +63,18 @@ Record safeio_facts := mkSafeio {
   dce_converts : bool                 (* ... wrapped in commonerrors.ConvertContextError *)
 }.
 
+(* filesystem.VFS.ReadFileContent: the refusal of files larger than the limit *)
+Record rfc_facts := mkRfc {
+  rfc_ctx_test_before_stat : bool;
+  rfc_guard : cmp;                       (* fileSize OP max *)
+  rfc_guard_needs_apply : bool;          (* limits.Apply() && ... *)
+  rfc_guard_nesting : option (cmp * Z);  (* None: directly under `if err == nil` (Stat succeeded); Some (op, c): inside `if fileSize op c` *)
+  rfc_guard_returns_toolarge : bool;
+  rfc_max_default : Z;                   (* max when the limits do not apply *)
+  rfc_max_from_limits_when_apply : bool; (* if limits.Apply() { max = limits.GetMaxFileSize() } *)
+  rfc_reads_at_most_max : bool           (* safeio.ReadAtMost(ctx, file, max, bufferCapacity) *)
+}.
+
 Fixpoint convert_ctx (rules : list ctxerr_rule) (e : errsym) : errsym :=
   match rules with
   | [] => e
